@@ -18,7 +18,7 @@ from ..runner import RuleResult
 from ..facts import AnalysisBroken
 from ..model import strip, strip_all, walk, show, notpl, is_call, call_args, call_receiver
 from .. import flow
-from ..flow import Guards, PathStates, canon, folded, same_expr
+from ..flow import Guards, PathStates, canon, folded, same_expr, atomise
 from . import c07
 
 EXPLANATION = (
@@ -671,6 +671,28 @@ def rule_basic_epilogue(prog, fixture=False):
         if v is not None and v != 0:
             r.add(key, main.loc(n), True, "non-zero", nontrivial=False)
             continue
+        # `return (incomplete...) ? 1 : status;` - the status is handed on only on the false edge of the condition:
+        # judged by what that edge implies (bool locals standing for their one definition)
+        if e.get("k") == "ConditionalOperator" and folded(e["c"][1]) not in (None, 0):
+            def expand(atoms, depth=0):
+                out = []
+                for a in atoms:
+                    out.append(a)
+                    x = strip_all(a[1]) if a[0] == "T" else None
+                    if x is not None and x.get("k") == "DeclRefExpr" and x.get("dk") == "Var" and depth < 3 and \
+                            not any(d_ == x["d"] for y in main.walk() for d_, _ in flow.written_decls(y) if y.get("k") not in ("VarDecl", "DeclStmt")):
+                        for vd_ in main.walk():
+                            if vd_.get("k") == "VarDecl" and vd_.get("d") == x["d"] and vd_.get("c"):
+                                out += expand(list(atomise(vd_["c"][0], a[2])), depth + 1)
+                return out
+            atoms = expand(list(atomise(e["c"][0], False)))
+            flushed = any((a[0] == "C" and a[2] == "==" and (is_call_named(strip_all(a[1]) or {}, "fflush", "stdout") and folded(a[3]) == 0 or
+                                                            is_call_named(strip_all(a[3]) or {}, "fflush", "stdout") and folded(a[1]) == 0)) or
+                          (a[0] == "T" and a[2] is False and is_call_named(strip_all(a[1]) or {}, "fflush", "stdout")) for a in atoms)
+            tested = any(a[0] == "T" and a[2] is False and is_call_named(strip_all(a[1]) or {}, "ferror", "stdout") for a in atoms)
+            if flushed and tested:
+                r.add(key, main.loc(n), True, "the status is returned only where fflush(stdout) succeeded and ferror(stdout) is clear")
+                continue
         bad = sorted(t for t in st if t[0] == "0?" and t[1] != "T")
         if bad and unchecked:
             r.add(key, main.loc(n), False,
